@@ -66,4 +66,11 @@ def runState (g : Gen) (clk : List Nat) (shard : Nat) : Nat → Gen
     | none => g
     | some (_, g', clk') => runState g' clk' shard n
 
+/-- Sorted list of the distinct elements (what an id-deduplicating read returns, as a set). -/
+def insertUnique (x : Nat) : List Nat → List Nat
+  | [] => [x]
+  | y :: ys => if x < y then x :: y :: ys else if x = y then y :: ys else y :: insertUnique x ys
+
+def sortDedup (xs : List Nat) : List Nat := xs.foldr insertUnique []
+
 end Snel.IdGen
